@@ -73,6 +73,8 @@ type Net struct {
 	// frame); a non-nil error is returned to the client as a write error.
 	WriteHook func(sess int, code int) error
 	SpinLimit int
+	// InlineRead: dispatch all buffered packages back to back (C13).
+	InlineRead bool
 }
 
 func New(sim *simkit.Sim, cfg Config, sink FrameSink, rw getty.ReadWriter, l getty.EventListener) *Net {
@@ -119,6 +121,7 @@ func (n *Net) scheduleCron(s *Session) {
 		if s.IsClosed() {
 			return
 		}
+		n.Sim.Probe("heartbeat-sent")
 		n.Listener.OnCron(s)
 		n.scheduleCron(s)
 	})
@@ -196,9 +199,18 @@ func (n *Net) DeliverChunk(s *Session, k int) {
 	}
 }
 
+// readLoop is the replica of the inner loop of getty's handleTCPPackage.
+// With InlineRead it runs exactly like getty (all buffered packages
+// dispatched back to back); otherwise it handles one package per scheduler
+// event so that the handler goroutine of package k is quiescent before
+// package k+1 is dispatched (the order is then decided by the tape, not by
+// the Go runtime).
 func (n *Net) readLoop(s *Session) {
 	spins := 0
 	for {
+		if s.IsClosed() {
+			return
+		}
 		s.mu.Lock()
 		buf := s.pkt
 		s.mu.Unlock()
@@ -243,6 +255,15 @@ func (n *Net) readLoop(s *Session) {
 			}
 		} else {
 			spins = 0
+			if !n.InlineRead {
+				s.mu.Lock()
+				rest := len(s.pkt)
+				s.mu.Unlock()
+				if rest > 0 {
+					n.Sim.Post(fmt.Sprintf("net-rd|%03d", s.id), 0, "", func() { n.readLoop(s) })
+				}
+				return
+			}
 		}
 	}
 }
@@ -347,34 +368,34 @@ func (s *Session) closeInternal(why string, fromPeer bool) {
 
 // getty.Session ---------------------------------------------------------------
 
-func (s *Session) ID() uint32                          { return uint32(s.id) }
-func (s *Session) SetCompressType(getty.CompressType)  {}
-func (s *Session) LocalAddr() string                   { return s.local }
-func (s *Session) RemoteAddr() string                  { return s.remote }
-func (s *Session) IncReadPkgNum()                      {}
-func (s *Session) IncWritePkgNum()                     {}
-func (s *Session) UpdateActive()                       {}
-func (s *Session) GetActive() time.Time                { return time.Now() }
-func (s *Session) ReadTimeout() time.Duration          { return time.Second }
-func (s *Session) SetReadTimeout(time.Duration)        {}
-func (s *Session) WriteTimeout() time.Duration         { return time.Second }
-func (s *Session) SetWriteTimeout(time.Duration)       {}
-func (s *Session) Send(interface{}) (int, error)       { return 0, errors.New("simnet: Send unsupported") }
-func (s *Session) CloseConn(int)                       { s.Close() }
-func (s *Session) SetSession(getty.Session)            {}
-func (s *Session) Reset()                              {}
-func (s *Session) Conn() net.Conn                      { return nil }
-func (s *Session) Stat() string                        { return fmt.Sprintf("simsession{%d %s}", s.id, s.remote) }
-func (s *Session) IsClosed() bool                      { return s.closed.Load() }
-func (s *Session) EndPoint() getty.EndPoint            { return endpoint{s.net} }
-func (s *Session) SetMaxMsgLen(int)                    {}
-func (s *Session) SetName(n string)                    { s.name = n }
+func (s *Session) ID() uint32                           { return uint32(s.id) }
+func (s *Session) SetCompressType(getty.CompressType)   {}
+func (s *Session) LocalAddr() string                    { return s.local }
+func (s *Session) RemoteAddr() string                   { return s.remote }
+func (s *Session) IncReadPkgNum()                       {}
+func (s *Session) IncWritePkgNum()                      {}
+func (s *Session) UpdateActive()                        {}
+func (s *Session) GetActive() time.Time                 { return time.Now() }
+func (s *Session) ReadTimeout() time.Duration           { return time.Second }
+func (s *Session) SetReadTimeout(time.Duration)         {}
+func (s *Session) WriteTimeout() time.Duration          { return time.Second }
+func (s *Session) SetWriteTimeout(time.Duration)        {}
+func (s *Session) Send(interface{}) (int, error)        { return 0, errors.New("simnet: Send unsupported") }
+func (s *Session) CloseConn(int)                        { s.Close() }
+func (s *Session) SetSession(getty.Session)             {}
+func (s *Session) Reset()                               {}
+func (s *Session) Conn() net.Conn                       { return nil }
+func (s *Session) Stat() string                         { return fmt.Sprintf("simsession{%d %s}", s.id, s.remote) }
+func (s *Session) IsClosed() bool                       { return s.closed.Load() }
+func (s *Session) EndPoint() getty.EndPoint             { return endpoint{s.net} }
+func (s *Session) SetMaxMsgLen(int)                     {}
+func (s *Session) SetName(n string)                     { s.name = n }
 func (s *Session) SetEventListener(getty.EventListener) {}
-func (s *Session) SetPkgHandler(getty.ReadWriter)      {}
-func (s *Session) SetReader(getty.Reader)              {}
-func (s *Session) SetWriter(getty.Writer)              {}
-func (s *Session) SetCronPeriod(int)                   {}
-func (s *Session) SetWaitTime(time.Duration)           {}
+func (s *Session) SetPkgHandler(getty.ReadWriter)       {}
+func (s *Session) SetReader(getty.Reader)               {}
+func (s *Session) SetWriter(getty.Writer)               {}
+func (s *Session) SetCronPeriod(int)                    {}
+func (s *Session) SetWaitTime(time.Duration)            {}
 func (s *Session) GetAttribute(k interface{}) interface{} {
 	s.mu.Lock()
 	defer s.mu.Unlock()
@@ -390,8 +411,12 @@ func (s *Session) RemoveAttribute(k interface{}) {
 	delete(s.attrs, k)
 	s.mu.Unlock()
 }
-func (s *Session) WriteBytes(b []byte) (int, error)         { return 0, errors.New("simnet: WriteBytes unsupported") }
-func (s *Session) WriteBytesArray(...[]byte) (int, error) { return 0, errors.New("simnet: WriteBytesArray unsupported") }
+func (s *Session) WriteBytes(b []byte) (int, error) {
+	return 0, errors.New("simnet: WriteBytes unsupported")
+}
+func (s *Session) WriteBytesArray(...[]byte) (int, error) {
+	return 0, errors.New("simnet: WriteBytesArray unsupported")
+}
 
 func (s *Session) Close() { s.closeInternal("client-close", false) }
 
@@ -472,9 +497,9 @@ func (n *Net) deliverOut(s *Session) {
 
 type endpoint struct{ n *Net }
 
-func (e endpoint) ID() getty.EndPointID                 { return 1 }
-func (e endpoint) EndPointType() getty.EndPointType     { return getty.TCP_CLIENT }
+func (e endpoint) ID() getty.EndPointID                  { return 1 }
+func (e endpoint) EndPointType() getty.EndPointType      { return getty.TCP_CLIENT }
 func (e endpoint) RunEventLoop(getty.NewSessionCallback) {}
-func (e endpoint) IsClosed() bool                       { return false }
-func (e endpoint) Close()                               {}
-func (e endpoint) GetTaskPool() gxsync.GenericTaskPool  { return e.n.Pool }
+func (e endpoint) IsClosed() bool                        { return false }
+func (e endpoint) Close()                                {}
+func (e endpoint) GetTaskPool() gxsync.GenericTaskPool   { return e.n.Pool }
